@@ -546,12 +546,34 @@ def eda(pattern):
                         if q == p2 or q in _reach(lambda x: [t for _, t in trans[x]], p2):
                             dup = True
         if dup:
-            return {"state": q, "kind": "parallel", "pump": _word_cycle(A, trans, q)}
+            return {"state": q, "kind": "parallel", "pump": _word_cycle(A, trans, q), "prefix": _word_to(trans, starts, q)}
         # (b) (q,q) ->+ (a,b) with a != b ->+ (q,q)
         for nd in first:
             if (q, q) == nd or (q, q) in _reach(succ2, nd):
-                return {"state": q, "kind": "diverge", "pump": _word_pair_cycle(trans, q, nd)}
+                return {"state": q, "kind": "diverge", "pump": _word_pair_cycle(trans, q, nd), "prefix": _word_to(trans, starts, q)}
     return None
+
+
+def _word_to(trans, starts, q):
+    """a word leading from a start state to (just before) chr state q"""
+    parent = {}
+    dq = collections.deque()
+    for s0 in starts:
+        parent[s0] = None
+        dq.append(s0)
+    while dq:
+        x = dq.popleft()
+        if x == q:
+            w = []
+            while parent[x] is not None:
+                x, c = parent[x]
+                w.append(c)
+            return "".join(chr(c) for c in reversed(w))
+        for cs, t in trans[x]:
+            if t not in parent:
+                parent[t] = (x, min(cs))
+                dq.append(t)
+    return ""
 
 
 def _word_cycle(A, trans, q):
